@@ -86,7 +86,7 @@ def evalCondW (w : World) (toks : List Tok) : Bool × World :=
   | some _ => (false, w)
   | none =>
     match runExpand w.plat.tbl toks with
-    | .ok ts => match evaluate ts with
+    | .ok ts => match CbiVerif.Eval.evaluatePP ts with
       | .ok b => (b, w)
       | .error e => (false, { w with st := { w.st with err := some e } })
     | .error e => (false, { w with st := { w.st with err := some e } })
